@@ -9,6 +9,7 @@ LEAN_MODULES = ['Dhlldv.Props.C19', 'Dhlldv.Props.C18']
 PROP_MODULES = ['Dhlldv.Props.C19']
 PROVED = ['A1 + A2 = Ap, A2 = Ap*Cvs/Cvb, Ap = pi (Dp/2)^2; O1 + O2 = Op = pi Dp; O12 = Dp sin(beta); beta is the table lookup at Cvs/Cvb (all Dp, Cvs)',
           'the regenerated 33-row table runs from (0,0) to (1,3.1415927) with strictly increasing keys and values (so, with C18, the lookup is monotone from 0 to 3.1415927); |3.1415927 - pi| < 1e-7',
+          'the half-angle the code uses is STRICTLY increasing in the bed concentration for every pair 0 <= c1 < c2 <= Cvb (not only at nodes) and stays within [0, 3.1415927] (monotone-table lemma for the interpolant)',
           'exact segment fraction (beta - sin beta cos beta)/pi is 0 at 0 and 1 at pi']
 HYPOTHESES = []
 MONITORED = ['node accuracy 1e-5 at the 33 nodes and 0.0075 between nodes: decided numerically in doubles on the finite sets the property names '
